@@ -1,0 +1,26 @@
+//go:build verif
+
+package utils
+
+// Contracts for the govc verifier (/verif/DESIGN.md). Comment-only.
+//
+// fp is the 64-bit murmur3 fingerprint of a key. It is a deterministic function of the bytes;
+// nothing else is assumed by the proofs (where a property needs "no collision among the keys in
+// play" it says so in its evidence).
+//@ smt (declare-fun fphash (Str) Int)
+//@ smt (assert (forall ((s Str)) (! (and (<= 0 (fphash s)) (<= (fphash s) 18446744073709551615)) :pattern ((fphash s)))))
+//
+//@ func utils.Hash -> r
+//@ trusted thin wrapper over github.com/spaolacci/murmur3 New64/Write/Sum64 (third-party hash)
+//@ pure
+//@ ensures r == fphash(s)
+//
+//@ func utils.LCP -> r
+//@ props C11
+//@ ensures 0 <= r && r <= len(a) && r <= len(b)
+//@ ensures all(i, 0, r, a[i] == b[i])
+//@ ensures r == len(a) || r == len(b) || a[r] != b[r]
+//@ loop 0:
+//@   invariant 0 <= i && i <= n && n <= len(a) && n <= len(b)
+//@   invariant all(k, 0, i, a[k] == b[k])
+//@   decreases n - i
